@@ -135,6 +135,9 @@ pub struct ReqPlan {
     /// a User-Agent supplied by the caller (the client only adds its own when there is none)
     #[serde(default)]
     pub user_agent: Option<String>,
+    /// the caller sets `te: trailers` (must reach the handler over HTTP/1 and over HTTP/2)
+    #[serde(default)]
+    pub te_trailers: bool,
     pub query: Option<String>,
     pub extra: Option<String>,
     pub body_len: usize,
@@ -252,6 +255,9 @@ pub fn build_request(origin: &str, p: &ReqPlan, progress: Arc<Mutex<u64>>) -> ht
     }
     if let Some(ua) = &p.user_agent {
         b = b.header(http::header::USER_AGENT, ua.as_str());
+    }
+    if p.te_trailers {
+        b = b.header(http::header::TE, "trailers");
     }
     if p.upgrade {
         b = b.header(http::header::UPGRADE, "sim").header(http::header::CONNECTION, "upgrade");
@@ -600,6 +606,7 @@ pub fn gen_request(r: &mut Rng, id: u32, origins: &[OriginCfg], client_alpn_h2: 
         path_form: *r.weighted(&[(10, 0u8), (1, 1), (1, 2)]),
         redirect: None,
         user_agent: if r.chance(1, 5) { Some(format!("caller/{}", id)) } else { None },
+        te_trailers: r.chance(1, 5),
         query: if q.is_empty() { None } else { Some(q.to_string()) },
         extra: if r.bool() { Some(format!("v{}", r.below(1000))) } else { None },
         body_len,
@@ -1001,6 +1008,9 @@ impl Scenario for E2eSim {
                 (None, None) => viol("request_corrupted", json!({"kind": "user_agent"}), format!("request {} arrived without any User-Agent (the client adds a default one)", p.id)),
                 _ => {}
             }
+            if p.te_trailers && !p.upgrade && s.te.as_deref() != Some("trailers") {
+                viol("request_corrupted", json!({"kind": "te_header"}), format!("request {} ({:?}) sent `te: trailers` but the handler saw TE {:?} (connection {:?})", p.id, p.ver, s.te, s.version));
+            }
             let seen_pq = s.target.parse::<http::Uri>().ok().and_then(|u| u.path_and_query().map(|x| x.as_str().to_string())).unwrap_or_default();
             if seen_pq != exp_pq {
                 viol("request_corrupted", json!({"kind": "target"}), format!("request {} (hop {}) sent target {} but handler saw {}", p.id, s.hop, exp_pq, s.target));
@@ -1268,6 +1278,11 @@ pub fn shrink_e2e(case: &E2eCase) -> Vec<E2eCase> {
         if r.user_agent.is_some() {
             let mut c = case.clone();
             c.requests[i].user_agent = None;
+            v.push(c);
+        }
+        if r.te_trailers {
+            let mut c = case.clone();
+            c.requests[i].te_trailers = false;
             v.push(c);
         }
         if r.query.is_some() || !r.path_tail.is_empty() || r.extra.is_some() {
